@@ -9,6 +9,19 @@ claim("C17", "model_checking",
       "Trusted: symgo + z3 + the splice reference in harness/C17. Bounds: document and replacement length (see evidence). The one-step result composes to sequences because the invariant is re-established; documents longer than the bound are outside the claim.",
       SYM, "DESIGN.md section 3 C17")
 
-for pid in ["C01","C02","C03","C05","C06","C07","C08","C09","C10","C11","C12","C13","C15","C16","C18","C19","C20"]:
+claim("C01", "model_checking",
+      "Bounded symbolic model checking of the HTML escaping sinks: templ.EscapeString (text, double- and single-quoted attribute position), RenderAttributes with all seven value forms, class lists, the id/type/nonce attributes of the JSON script element and the nonce written by writeScriptHeader. For every string up to the bound over all 256 byte values the output is re-read by a reference HTML5 tokenizer and the solver proves: exactly the author's tags/attributes, the string verbatim as one text run / attribute value.",
+      "Trusted: symgo + z3, the reference tokenizer in harness/common/zz_verif_html.go (known references amp/lt/gt/quot/apos/ASCII numeric; anything else counts as failure), the fmt/json models (validated natively per run). Attribute keys are concrete. Bound: string length (see evidence).",
+      SYM, "DESIGN.md section 3 C01")
+claim("C03", "model_checking",
+      "Bounded symbolic model checking of the JavaScript sinks: ScriptContentInsideStringLiteral in ', \" and ` literals, ScriptContentOutsideStringLiteral for six value shapes, SafeScript/SafeScriptInline/JSFuncCall, and the JSON script body. For every string leaf up to the bound over all byte values a reference ECMAScript literal lexer / JSON reader must read exactly one literal or value whose decoded content equals the Go value, and the text must not be able to end the script element, the literal or the attribute, nor open a comment or a template interpolation.",
+      "Trusted: symgo + z3, the reference lexers in harness/common/zz_verif_jsref.go, the structural json.Marshal model (string leaves go through the real encoding/json.appendString). Regular-expression literals and longer values are outside the claim.",
+      SYM, "DESIGN.md section 3 C03")
+claim("C05", "model_checking",
+      "Bounded symbolic model checking of safehtml.SanitizeCSS per property class (background-image, font-family, display, a listed regular property, an unlisted name, mixed case), arbitrary property names, framed url()/quoted/list shapes and SanitizeStyleValue: the sanitised value is run through a reference CSS tokenizer automaton and the solver proves it cannot end the declaration, rule, style element or string, open a comment, call a function other than url(), or carry a url whose WHATWG scheme is not http/https/mailto - or it is the fixed innocuous value.",
+      "Trusted: symgo + z3, the conservative CSS automaton in harness/common/zz_verif_cssref.go, the regexp NFA model for the five patterns taken from the current source. Bound: value/name length (see evidence).",
+      SYM, "DESIGN.md section 3 C05")
+
+for pid in ["C02","C06","C07","C08","C09","C10","C11","C12","C13","C15","C16","C18","C19","C20"]:
     NA[pid] = "check not built yet in this session (work in progress; see DESIGN.md section 7 for the order)"
 NA["C14"] = "data-race freedom and schedule independence need the Go memory model at every access and the real sync.Pool; the symbolic executor models the pool and is sequentially consistent, so it cannot exhibit a race in the code it replaces"
